@@ -35,9 +35,12 @@ struct Model {
 	bool resolvedByKind = false;         // some region was resolved by the request kind (not only by the path)
 	bool usedRandom = false;
 	bool randomNone = false;             // a random draw had no candidate (precondition violated by the case)
+	// predicted lifecycle callbacks of the commit: per state, how many exit / enter / reenter it receives
+	unsigned char lifeExit[HV_NS], lifeEnter[HV_NS], lifeReenter[HV_NS];
+	void clearLife() { for (int i = 0; i < HV_NS; ++i) lifeExit[i] = lifeEnter[i] = lifeReenter[i] = 0; }
 
 	Model() { clearReq(); }
-	void clearReq() { for (int i = 0; i < HV_COMPO_COUNT; ++i) { req[i] = -1; remain[i] = 0; touchedRegion[i] = false; } resolvedByKind = false; usedRandom = false; randomNone = false; }
+	void clearReq() { for (int i = 0; i < HV_COMPO_COUNT; ++i) { req[i] = -1; remain[i] = 0; touchedRegion[i] = false; } resolvedByKind = false; usedRandom = false; randomNone = false; clearLife(); }
 
 	static int effective(int ty, int strat) {
 		if (ty != T_CHANGE) return ty;
@@ -125,11 +128,19 @@ struct Model {
 		}
 		forward(0, false, r);
 	}
-	void deactivate(int s) { const Node& nd = node(s); if (nd.kind == LEAF) return; if (nd.kind == ORTHO) { for (int i = 0; i < nd.nsubs; ++i) deactivate(sub(s, i)); return; }
-		const int a = cfg.active[nd.compo]; if (a >= 0) { deactivate(sub(s, a)); cfg.resumable[nd.compo] = (short) a; cfg.active[nd.compo] = -1; } }
-	void activate(int s) { const Node& nd = node(s); if (nd.kind == LEAF) return; if (nd.kind == ORTHO) { for (int i = 0; i < nd.nsubs; ++i) activate(sub(s, i)); return; }
-		const int r = req[nd.compo]; cfg.active[nd.compo] = (short) r; if (cfg.resumable[nd.compo] == r) cfg.resumable[nd.compo] = -1; if (r >= 0) activate(sub(s, r)); }
-	void reenter(int s) { const Node& nd = node(s); if (nd.kind == LEAF) return; if (nd.kind == ORTHO) { for (int i = 0; i < nd.nsubs; ++i) reenter(sub(s, i)); return; }
+	// exit / enter / reenter of the state object s itself (anonymous heads have none, they are still counted: the oracle skips them)
+	void deactivate(int s) { const Node& nd = node(s);
+		if (nd.kind == ORTHO) { for (int i = 0; i < nd.nsubs; ++i) deactivate(sub(s, i)); }
+		else if (nd.kind == COMPO) { const int a = cfg.active[nd.compo]; if (a >= 0) { deactivate(sub(s, a)); cfg.resumable[nd.compo] = (short) a; cfg.active[nd.compo] = -1; } }
+		++lifeExit[s]; }
+	void activate(int s) { const Node& nd = node(s);
+		++lifeEnter[s];
+		if (nd.kind == ORTHO) { for (int i = 0; i < nd.nsubs; ++i) activate(sub(s, i)); }
+		else if (nd.kind == COMPO) { const int r = req[nd.compo]; cfg.active[nd.compo] = (short) r; if (cfg.resumable[nd.compo] == r) cfg.resumable[nd.compo] = -1; if (r >= 0) activate(sub(s, r)); } }
+	void reenter(int s) { const Node& nd = node(s);
+		++lifeReenter[s];
+		if (nd.kind == LEAF) return;
+		if (nd.kind == ORTHO) { for (int i = 0; i < nd.nsubs; ++i) reenter(sub(s, i)); return; }
 		const int a = cfg.active[nd.compo], r = req[nd.compo];
 		if (r < 0 || r == a) { if (a >= 0) reenter(sub(s, a)); }
 		else { deactivate(sub(s, a)); cfg.resumable[nd.compo] = (short) a; cfg.active[nd.compo] = (short) r; activate(sub(s, r)); } }
